@@ -283,11 +283,13 @@ func EvalSubset(c Cluster, origin string) ([]emitted, error) {
 		}
 	}
 	topos := u.ListOf(c.Topos, topoTerm)
-	var act []string
+	// every pod of the job that sits on a node, with its status: which of them pin the domain is the model's
+	// decision (pinning pin_rule), which of them are "active" the monitor's (active_pods)
+	var ps []string
 	for _, p := range spec.Pods {
 		t := b.Tasks[p.Name]
-		if pod_status.IsActiveAllocatedStatus(t.Status) {
-			act = append(act, u.Pair(u.Pos(ids.Of(p.Name)), u.Str(t.NodeName)))
+		if t.NodeName != "" {
+			ps = append(ps, u.Tuple(u.Pos(ids.Of(p.Name)), u.Str(t.NodeName), core.StatusTerm(t.Status)))
 		}
 	}
 	var out []emitted
@@ -299,18 +301,21 @@ func EvalSubset(c Cluster, origin string) ([]emitted, error) {
 			psNames = append(psNames, n)
 		}
 		sort.Strings(psNames)
-		var activeNames []string
+		var activeNames, otherNames []string
 		for _, n := range psNames {
 			for _, t := range call.podSets[n].GetPodInfos() {
 				ms = append(ms, u.Pos(ids.Of(t.Name)))
 				if t.Status == pod_status.Pending {
 					tasks = append(tasks, t)
 				}
-				if pod_status.IsActiveAllocatedStatus(t.Status) {
+				if isActive(t.Status) {
 					activeNames = append(activeNames, t.NodeName)
+				} else if t.NodeName != "" {
+					otherNames = append(otherNames, core.StatusTerm(t.Status)+"@"+t.NodeName)
 				}
 			}
 		}
+		sort.Strings(otherNames)
 		sort.Slice(tasks, func(i, k int) bool { return tasks[i].Name < tasks[k].Name })
 		sets, serr := b.Ssn.SubsetNodesFn(job, call.info, call.podSets, tasks, nodes)
 		var allowed []string
@@ -338,12 +343,32 @@ func EvalSubset(c Cluster, origin string) ([]emitted, error) {
 			}
 		}
 		term := fmt.Sprintf("(KSub %s %s %s %s %s %s %s %s)", topos, sessionNodesTerm(c, b), tcOptTerm(call.tc), u.List(ms),
-			u.Nat(len(tasks)), strList(allowed), u.List(act), u.List(setTerms))
+			u.Nat(len(tasks)), strList(allowed), u.List(ps), u.List(setTerms))
 		label := fmt.Sprintf("T2b %s", origin)
 		if hasDotted(c) {
 			label += " dotted-labels"
 		}
 		label += fmt.Sprintf(" %s call=%s%s tasks=%d nodeSet=%v active=%v => %s", c.Describe(), call.name, tcStr(call.tc), len(tasks), allowed, activeNames, strings.Join(setDesc, " "))
+		if len(otherNames) > 0 {
+			label += fmt.Sprintf(" not-active=%v", otherNames)
+		}
+		if len(tasks) > 0 && len(activeNames) > 0 && serr == nil {
+			// Go-side pre-diagnosis for the label: a returned node set that shares the required domain with no active pod
+			for _, s := range sets {
+				if len(s) == 0 {
+					continue
+				}
+				shares := false
+				for _, a := range activeNames {
+					if !spread(c, b, call.tc, []string{a, s[0].Name}) {
+						shares = true
+					}
+				}
+				if !shares {
+					viol = true
+				}
+			}
+		}
 		if serr != nil {
 			label += " error"
 		}
@@ -358,6 +383,12 @@ func EvalSubset(c Cluster, origin string) ([]emitted, error) {
 			e.counts = append(e.counts, "T2b:required-level")
 			if len(activeNames) > 0 {
 				e.counts = append(e.counts, "T2b:pinned-by-active-pods")
+			}
+			if len(otherNames) > 0 {
+				e.counts = append(e.counts, "T2b:required-level-with-terminating-or-finished-pods")
+				if len(activeNames) > 0 && len(tasks) > 0 {
+					e.counts = append(e.counts, "T2b:pinned-and-terminating-or-finished-pods-and-tasks")
+				}
 			}
 		}
 		if call.tc != nil && len(tasks) > 0 {
@@ -437,6 +468,16 @@ func groupsOf(j Job) []struct {
 	return out
 }
 
+// isActive: the statuses of a workload's ACTIVE pods in the sense of the property (the harness's own list, for labels
+// and counters only; the verdicts are the Coq monitor's).
+func isActive(s pod_status.PodStatus) bool {
+	switch s {
+	case pod_status.Allocated, pod_status.Pipelined, pod_status.Binding, pod_status.Bound, pod_status.Running:
+		return true
+	}
+	return false
+}
+
 // EvalCycle runs the real actions and returns the KCycle case.
 func EvalCycle(c Cluster, origin string) (emitted, error) {
 	b, err := Build(c)
@@ -454,9 +495,10 @@ func EvalCycle(c Cluster, origin string) (emitted, error) {
 		for _, p := range j.Pods {
 			t := b.Tasks[p.Name]
 			pods = append(pods, podTerm(ids, p, t.Pod))
-			if pod_status.IsActiveUsedStatus(t.Status) && t.NodeName != "" {
+			if t.NodeName != "" {
+				// with its status: the monitor decides who is on the node (active-used) and who is an active pod of its group
 				if _, ok := b.Nodes[t.NodeName]; ok {
-					init = append(init, u.Tuple(u.Pos(ids.Of(p.Name)), u.Str(t.NodeName), u.Bool(pod_status.IsActiveAllocatedStatus(t.Status))))
+					init = append(init, u.Tuple(u.Pos(ids.Of(p.Name)), u.Str(t.NodeName), core.StatusTerm(t.Status)))
 				}
 			}
 		}
@@ -484,16 +526,56 @@ func EvalCycle(c Cluster, origin string) (emitted, error) {
 	for _, j := range c.Jobs {
 		for _, p := range j.Pods {
 			t := b.Tasks[p.Name]
-			if pod_status.IsActiveAllocatedStatus(t.Status) && t.NodeName != "" {
+			if isActive(t.Status) && t.NodeName != "" {
 				if _, ok := b.Nodes[t.NodeName]; ok {
 					active[p.Name] = t.NodeName
 				}
 			}
 		}
 	}
+	// coverage of the terminating-pod family: a group with a required level that starts the cycle with an active pod,
+	// a pod on a node that is not active (Releasing / Succeeded / Failed) and a pending pod
+	family, familySplit := false, false
+	for _, g := range ggo {
+		if g.tc == nil || g.tc.Req == "" {
+			continue
+		}
+		var act, other []string
+		pend := false
+		for m := range g.members {
+			t := b.Tasks[m]
+			switch {
+			case t.Status == pod_status.Pending:
+				pend = true
+			case t.NodeName == "" || b.Nodes[t.NodeName] == nil:
+			case isActive(t.Status):
+				act = append(act, t.NodeName)
+			default:
+				other = append(other, t.NodeName)
+			}
+		}
+		if pend && len(act) > 0 && len(other) > 0 {
+			family = true
+			for _, o := range other {
+				alone := true
+				for _, a := range act {
+					if !spread(c, b, g.tc, []string{a, o}) {
+						alone = false
+					}
+				}
+				familySplit = familySplit || alone
+			}
+		}
+	}
 	panicked := RunActions(b, c.Actions)
 	var calls, cdesc []string
 	counts := []string{"T3"}
+	if family {
+		counts = append(counts, "T3:required-level:active+terminating-or-finished+pending")
+	}
+	if familySplit {
+		counts = append(counts, "T3:required-level:active+terminating-or-finished-in-another-domain+pending")
+	}
 	viol := false
 	for _, cl := range b.Rec.Calls() {
 		switch cl.Kind {
@@ -717,6 +799,23 @@ func Run(dir string, seed uint64, n int, tier string) error {
 			}
 		}
 	}
+	for _, cc := range corpusTerminating() {
+		e, err := EvalCycle(cc.c, "corpus:"+cc.name)
+		if err != nil {
+			return err
+		}
+		add(e)
+		c2 := cc.c
+		c2.Jobs = append([]Job{}, cc.c.Jobs...)
+		c2.Jobs[0].Name = "j"
+		es, err := EvalSubset(c2, "corpus:"+cc.name)
+		if err != nil {
+			return err
+		}
+		for _, e := range es {
+			add(e)
+		}
+	}
 	// n counts generated inputs: 1/2 predicate triples, 1/4 topology clusters, 1/4 whole cycles
 	for i := 0; i < n; i++ {
 		r := root.Fork(uint64(i))
@@ -733,7 +832,11 @@ func Run(dir string, seed uint64, n int, tier string) error {
 			if dotted {
 				origin = "gen-dotted"
 			}
-			es, err := EvalSubset(genTopoCluster(r, dotted), origin)
+			term := 4 // a third of the constrained jobs get terminating / finished pods ...
+			if !dotted && i%16 == 6 {
+				origin, term = "gen-terminating", 12 // ... and a separate stream where all of them do
+			}
+			es, err := EvalSubset(genTopoCluster(r, dotted, term), origin)
 			if err != nil {
 				return err
 			}
@@ -750,6 +853,9 @@ func Run(dir string, seed uint64, n int, tier string) error {
 			if !dotted && i%8 == 7 {
 				origin = "gen-contended"
 				cl = genContended(r)
+			} else if !dotted && i%16 == 11 {
+				origin = "gen-terminating"
+				cl = genTerminating(r)
 			} else {
 				cl = genCycle(r, dotted)
 			}
@@ -760,12 +866,14 @@ func Run(dir string, seed uint64, n int, tier string) error {
 			add(e)
 		}
 	}
-	out.Stats["rule"] = "three streams from one splitmix64 PRNG after a fixed corpus (sticky-skip regression, dotted-label gang, two-racks gang, missing topology, taint+preempt): " +
+	out.Stats["rule"] = "three streams from one splitmix64 PRNG after a fixed corpus (sticky-skip regression, dotted-label gang, two-racks gang, missing topology, taint+preempt; " +
+		"terminating-pod family: a workload with a required level that has a Running pod in one domain, a Releasing / Succeeded / Failed pod in another domain with room and a pending pod - flat, sub-group and nested constraints, one and two levels, nomination onto the terminating pod's GPU, the terminating pod produced in the cycle by reclaim / preempt evicting an elastic surplus pod): " +
 		"T2a (1/2) one pod against every node of a 2-5 node cluster - labels from zone/rack/num/host alphabets, selectors with In/NotIn/Exists/DoesNotExist/Gt/Lt and matchFields, " +
 		"taints of all effects, tolerations, unschedulable / not-ready / pressure conditions, node-pool label, 0-5 pods already on the nodes with (anti-)affinity terms and two namespaces, a third of them two-phase " +
 		"(PrePredicate evaluated before and after pods appear); T2b (1/4) SubsetNodesFn called as allocate does for the root set, nested sets and pod sets of a job on 3-6 node clusters with a 1-3 level topology " +
-		"(unbalanced, nodes lacking labels, required / preferred / bogus levels, missing topology, active pods pinning the domain; 1/10 of these clusters with dotted label values); " +
-		"T3 (1/4) whole cycles (allocate + random subset of consolidation, reclaim, preempt; half of them contended: every GPU held by a low-priority running pod so that placements are nominations after evictions) on 2-5 node clusters with GPUs, taints, conditions, pool label, 2-7 jobs with selectors / affinities / tolerations / topology constraints / nested sub-groups. " +
+		"(unbalanced, nodes lacking labels, required / preferred / bogus levels, missing topology, active pods pinning the domain, a third of the jobs - and all jobs of a separate 1/4 sub-stream - with Releasing / Succeeded / Failed pods on arbitrary nodes; 1/10 of these clusters with dotted label values); " +
+		"T3 (1/4) whole cycles (allocate + random subset of consolidation, reclaim, preempt; half of them contended: every GPU held by a low-priority running pod so that placements are nominations after evictions) on 2-5 node clusters with GPUs, taints, conditions, pool label, 2-7 jobs with selectors / affinities / tolerations / topology constraints / nested sub-groups, a third of the workloads with a required level carrying Releasing / Succeeded / Failed pods on arbitrary nodes; " +
+		"1/4 of the non-contended cycles are built around one elastic workload with a required level (job, pod set or nested set) that has active, terminating and pending pods, every other GPU free or held by pods of lower / higher priority in either queue, a reclaiming job, actions in varying order). " +
 		"Non-trivial = T2a: the pod carries a selector / affinity term or pods are already placed; T2b: a constrained call with tasks; T3: the cycle issued at least one call. Distinct by full label."
 	return out.Flush()
 }
